@@ -220,38 +220,59 @@ Qed.
 
 (* ------------------------------------------------------------------ the main relation *)
 
-(* ---- top-level functions (stage 3b).  A function is described by a record with the static facts about
-   its code and the dynamic ones (which cells, which closures); a `world` fixes, for the run of one function
-   body, the functions that exist and the cells whose content cannot change during that run: the cells of
-   the function names and, inside a call, the cells of the caller that the callee cannot reach. ---- *)
+(* ---- functions.  A closure that exists is described by a record with the static facts about its code and the
+   dynamic ones (closure index / id, closure environments).  A `world` collects what the simulation knows about
+   the two heaps: which Sylt cell corresponds to which Lua cell (user variables: w_R, the two cells hold related
+   values at all times, whoever writes them; function names and function parameters: w_F, the two cells hold the
+   two halves of one closure for ever), which closures exist (w_D), and which Lua cells have a content that cannot
+   change (w_P: the temporaries of the callers, while a callee runs).  w_R, w_F and w_D only grow. ---- *)
 Record fdyn := mkFdyn {
-  fd_var : N; fd_params : list N; fd_body : list Resolved.stmt;
-  fd_sc : list N;                 (* the global values its body sees *)
-  fd_fl : list (N * nat);         (* the functions its body can call: the earlier ones and itself *)
-  fd_g : nat; fd_k : nat; fd_scout : list N * list (N * nat);
+  fd_var : N; fd_params : list N; fd_pk : list kind; fd_body : list Resolved.stmt;
+  fd_sc : list N;                 (* the user variables its body sees (the scope at its definition) *)
+  fd_fl : list (N * kind);         (* the functions its body can call: the visible ones and itself *)
+  fd_g : nat; fd_k : nat; fd_scout : list N * list (N * kind);
   fd_code : list ir; fd_ctx : N; fd_c : N; fd_c' : N; fd_lut : alut;
   fd_cf : nat; fd_ci : nat; fd_ef : senv;            (* Sylt: cell of the name, closure index, closure environment *)
   fd_pf : positive; fd_fid : positive; fd_Ef : env   (* Lua: cell of the name, closure id, closure environment *)
 }.
 
 Record world := mkWorld {
-  w_IS : nat -> sval -> Prop;          (* Sylt cells with a fixed content *)
-  w_IL : positive -> value -> Prop;    (* Lua cells with a fixed content *)
-  w_CS : nat -> SyltSem.closure -> Prop;     (* Sylt closure-table entries that stay *)
-  w_CL : positive -> closure -> Prop;        (* Lua closure-table entries that stay *)
-  w_funs : list fdyn                   (* the functions that can be called by name: all of them are visible *)
+  w_R : nat -> positive -> Prop;            (* the cells of a user variable: Sylt cell, Lua cell *)
+  w_F : nat -> positive -> fdyn -> Prop;    (* the cells of a function name or function parameter, and the closure they hold *)
+  w_D : fdyn -> Prop;                       (* the closures that exist *)
+  w_P : positive -> value -> Prop;          (* Lua cells with a fixed content *)
+  w_pc : nat                                (* the Sylt cell of the external print *)
 }.
 
-Definition fnames (fl : list (N * nat)) : list N := map fst fl.
+Definition fnames (fl : list (N * kind)) : list N := map fst fl.
 
-(* a world that fixes at least what another one fixes *)
+(* the kind of a closure *)
+Definition dkind (d : fdyn) : kind := KF (fd_pk d) KP.
+
+(* a world that knows at least what another one knows; the fixed cells are the same *)
 Definition wsub (W W' : world) : Prop :=
-  (forall c x, w_IS W c x -> w_IS W' c x) /\ (forall p lv, w_IL W p lv -> w_IL W' p lv) /\
-  (forall ci cl, w_CS W ci cl -> w_CS W' ci cl) /\ (forall fid c, w_CL W fid c -> w_CL W' fid c) /\
-  incl (w_funs W) (w_funs W').
-Lemma wsub_refl W : wsub W W. Proof. repeat split; auto. apply incl_refl. Qed.
+  (forall c p, w_R W c p -> w_R W' c p) /\ (forall c p d, w_F W c p d -> w_F W' c p d) /\
+  (forall d, w_D W d -> w_D W' d) /\ (forall p lv, w_P W p lv <-> w_P W' p lv) /\ w_pc W' = w_pc W.
+Lemma wsub_refl W : wsub W W. Proof. repeat split; auto. Qed.
 Lemma wsub_trans W1 W2 W3 : wsub W1 W2 -> wsub W2 W3 -> wsub W1 W3.
-Proof. intros (A & B & C & D & F) (A' & B' & C' & D' & F'). repeat split; auto. eapply incl_tran; eassumption. Qed.
+Proof.
+  intros (A & B & C & D & F) (A' & B' & C' & D' & F'). repeat split; auto.
+  - intros H. apply D', D. exact H.
+  - intros H. apply D, D'. exact H.
+  - congruence.
+Qed.
+
+(* closures are created in step on the two sides: the Lua id of the Sylt closure number ci *)
+Definition fid_of (ci : nat) : positive := Pos.of_nat (Pos.to_nat (s_nclo st_pre) + ci).
+Lemma fid_of_succ ci : fid_of (S ci) = Pos.succ (fid_of ci).
+Proof.
+  unfold fid_of. rewrite Nat.add_succ_r. apply Nat2Pos.inj_succ. pose proof (Pos2Nat.is_pos (s_nclo st_pre)). lia.
+Qed.
+Lemma fid_of_inj a b : fid_of a = fid_of b -> a = b.
+Proof.
+  unfold fid_of. intros H. pose proof (Pos2Nat.is_pos (s_nclo st_pre)).
+  apply Nat2Pos.inj in H; lia.
+Qed.
 
 Section Rel.
 Variable pv : N.       (* the id of the external print *)
@@ -259,205 +280,217 @@ Variable sv : N.       (* the id of start *)
 Variable bound : N.    (* |r_vars| + 1: where the temporaries start *)
 Variable u : counts.   (* the usage counts of the whole program *)
 
-(* what a function's body can name besides its parameters and locals *)
-Definition fvis (d : fdyn) (g : N) : Prop := In g (fd_sc d) \/ In g (fnames (fd_fl d)).
-
-(* the facts about a function that never change *)
+(* the facts about a closure that never change *)
 Record fstatic (d : fdyn) : Prop := mkFstatic {
   fs_lower : lower_fbody (statement (fd_g d)) (expression (fd_g d)) (fd_body d) (fd_ctx d) (fd_c d) = Ok (fd_code d, fd_c' d);
-  fs_frag : frag_stmts pv sv bound (fd_fl d) (fd_k d) (rev (fd_params d) ++ fd_sc d) (fd_body d) = Some (fd_scout d);
+  fs_frag : frag_stmts pv sv bound (snd (bind_scope (fd_params d) (fd_pk d) (fd_sc d) (fd_fl d))) (fd_k d)
+                       (fst (bind_scope (fd_params d) (fd_pk d) (fd_sc d) (fd_fl d))) (fd_body d) = Some (fd_scout d);
+  fs_pk : length (fd_pk d) = length (fd_params d);
   fs_params : params_ok pv sv bound (fd_fl d) (fd_sc d) (fd_params d) = true;
-  fs_self : In (fd_var d, length (fd_params d)) (fd_fl d);
-  fs_var : fd_var d < bound /\ fd_var d <> pv /\ fd_var d <> sv;
   fs_scb : forall g, In g (fd_sc d) -> g < bound /\ g <> pv;
   fs_flb : forall g, In g (fnames (fd_fl d)) -> g < bound /\ g <> pv;
+  fs_scfl : forall g, In g (fd_sc d) -> ~ In g (fnames (fd_fl d));
   fs_ucov : ucovers u (fd_code d);
   fs_bound : bound <= fd_c d;
   fs_lut : forall t, (fd_c d <= t < fd_c' d \/ t < bound) -> alut_get (fd_lut d) t = None;
   fs_Efree : forall t, fd_c d <= t < fd_c' d -> sget (fmt_var t) (fd_Ef d) = None;
   fs_EpvE : sget (fmt_var pv) (fd_Ef d) = None;
   fs_EV : forall x p, sget x (fd_Ef d) = Some p -> exists v, x = fmt_var v;
-  fs_Einj : forall x y p, sget x (fd_Ef d) = Some p -> sget y (fd_Ef d) = Some p -> x = y;
-  fs_print : exists cp, SyltSem.lookup (fd_ef d) pv = Some cp
+  fs_Einj : forall x y p, sget x (fd_Ef d) = Some p -> sget y (fd_Ef d) = Some p -> x = y
 }.
 
 (* the body of the Lua closure of a function *)
 Definition fbody (d : fdyn) : block := estack u (fd_lut d) [] [] (fd_code d).
 
-(* a function as seen from an environment in which it can be called: the name is bound to its cells, and the
-   closure environments agree with this one on everything the body of the function can name *)
-Record fvisS (e : senv) (d : fdyn) : Prop := mkFvisS {
-  vs_name : SyltSem.lookup e (fd_var d) = Some (fd_cf d);
-  vs_agree : forall g, fvis d g \/ g = pv -> SyltSem.lookup (fd_ef d) g = SyltSem.lookup e g
-}.
-Record fvisL (E : env) (d : fdyn) : Prop := mkFvisL {
-  vl_name : sget (fmt_var (fd_var d)) E = Some (fd_pf d);
-  vl_agree : forall g, fvis d g -> sget (fmt_var g) (fd_Ef d) = sget (fmt_var g) E
-}.
-
 Section World.
-Variable fl : list (N * nat).   (* the functions that can be called from the code being run *)
+Variable fl : list (N * kind).   (* the functions that can be called by name from the code being run *)
 Variable W : world.
 
-(* the Lua cells of the variables in scope can be written: their content is not fixed *)
-Definition lprot_ok (sc : list N) (E : env) : Prop :=
-  forall v p lv, In v sc -> sget (fmt_var v) E = Some p -> ~ w_IL W p lv.
+(* a Lua cell that is neither the cell of a user variable nor of a function name *)
+Definition not_user (p : positive) : Prop := (forall c, ~ w_R W c p) /\ (forall c d, ~ w_F W c p d).
 
 Record winv (sc : list N) (e : senv) (st : sstate) (E : env) (stL : state) : Prop := mkWinv {
-  (* state *)
-  wi_IS : forall c x, w_IS W c x -> nth_error (SyltSem.cells st) c = Some x;
-  wi_IL : forall p lv, w_IL W p lv -> get_cell stL p = lv /\ (p < s_ncell stL)%positive;
-  wi_CS : forall ci cl, w_CS W ci cl -> nth_error (SyltSem.clos st) ci = Some cl;
-  wi_CL : forall fid c, w_CL W fid c -> pget fid (s_clos stL) = Some c /\ (fid < s_nclo stL)%positive;
-  wi_allvis : forall d, In d (w_funs W) -> In (fd_var d) (fnames fl);
-  wi_clos : forall d, In d (w_funs W) ->
-            nth_error (SyltSem.clos st) (fd_ci d) = Some (SyltSem.mkClos (fd_params d) (fd_body d) (fd_ef d)) /\
-            pget (fd_fid d) (s_clos stL) = Some (mkClosure (fd_Ef d) (map fmt_var (fd_params d)) (fbody d)) /\
-            (forall x p, sget x (fd_Ef d) = Some p -> (p < s_ncell stL)%positive) /\
-            (fd_fid d < s_nclo stL)%positive /\ (fd_ci d < length (SyltSem.clos st))%nat;
-  (* the functions *)
-  wi_fun : forall d, In d (w_funs W) ->
-           fstatic d /\ w_IS W (fd_cf d) (SyltSem.SClos (fd_ci d)) /\ w_IL W (fd_pf d) (VFun (fd_fid d));
-  wi_inter : forall d d', In d (w_funs W) -> In d' (w_funs W) -> In (fd_var d') (fnames (fd_fl d)) ->
-             fvisS (fd_ef d) d' /\ fvisL (fd_Ef d) d' /\ incl (fd_sc d') (fd_sc d) /\ incl (fd_fl d') (fd_fl d);
-  wi_cover : forall f ar, In (f, ar) fl -> exists d, In d (w_funs W) /\ fd_var d = f /\ length (fd_params d) = ar;
-  wi_uniq : forall d d', In d (w_funs W) -> In d' (w_funs W) -> fd_var d = fd_var d' -> d = d';
+  (* the cells of the user variables hold related values *)
+  wi_R : forall c p, w_R W c p ->
+         exists x, nth_error (SyltSem.cells st) c = Some x /\ vrel x (get_cell stL p) /\ (p < s_ncell stL)%positive;
+  wi_Rfun : forall c p p', w_R W c p -> w_R W c p' -> p = p';
+  wi_Rinj : forall c c' p, w_R W c p -> w_R W c' p -> c = c';
+  wi_RF : forall c p, w_R W c p -> (forall p' d, ~ w_F W c p' d) /\ (forall c' d, ~ w_F W c' p d);
+  wi_RP : forall c p lv, w_R W c p -> ~ w_P W p lv;
+  (* the cells of the function names hold their closures *)
+  wi_F : forall c p d, w_F W c p d ->
+         nth_error (SyltSem.cells st) c = Some (SyltSem.SClos (fd_ci d)) /\ get_cell stL p = VFun (fd_fid d) /\
+         (p < s_ncell stL)%positive /\ w_D W d;
+  wi_FP : forall c p d lv, w_F W c p d -> ~ w_P W p lv;
+  wi_Ffun : forall c p d p' d', w_F W c p d -> w_F W c p' d' -> p = p' /\ d = d';
+  (* the fixed cells *)
+  wi_P : forall p lv, w_P W p lv -> get_cell stL p = lv /\ (p < s_ncell stL)%positive;
+  wi_pc : nth_error (SyltSem.cells st) (w_pc W) = Some (SyltSem.SExt "print");
+  (* the closures *)
+  wi_D : forall d, w_D W d ->
+         fstatic d /\
+         nth_error (SyltSem.clos st) (fd_ci d) = Some (SyltSem.mkClos (fd_params d) (fd_body d) (fd_ef d)) /\
+         pget (fd_fid d) (s_clos stL) = Some (mkClosure (fd_Ef d) (map fmt_var (fd_params d)) (fbody d)) /\
+         (forall x p, sget x (fd_Ef d) = Some p -> (p < s_ncell stL)%positive) /\
+         fd_fid d = fid_of (fd_ci d) /\ (fd_ci d < length (SyltSem.clos st))%nat /\
+         SyltSem.lookup (fd_ef d) pv = Some (w_pc W) /\
+         (forall g, In g (fd_sc d) ->
+            exists c p, SyltSem.lookup (fd_ef d) g = Some c /\ sget (fmt_var g) (fd_Ef d) = Some p /\ w_R W c p) /\
+         (forall f K, In (f, K) (fd_fl d) ->
+            exists c p d', SyltSem.lookup (fd_ef d) f = Some c /\ sget (fmt_var f) (fd_Ef d) = Some p /\ w_F W c p d' /\
+                           dkind d' = K) /\
+         (forall t p, bound <= t -> sget (fmt_var t) (fd_Ef d) = Some p -> not_user p);
+  wi_Dall : forall ci, (ci < length (SyltSem.clos st))%nat -> exists d, w_D W d /\ fd_ci d = ci;
+  wi_lock : s_nclo stL = fid_of (length (SyltSem.clos st));
   (* the current scope *)
-  wi_scS : forall v c x, In v sc -> SyltSem.lookup e v = Some c -> ~ w_IS W c x;
+  wi_sc : forall v, In v sc -> exists c p, SyltSem.lookup e v = Some c /\ sget (fmt_var v) E = Some p /\ w_R W c p;
   wi_scfl : forall v, In v sc -> ~ In v (fnames fl);
-  wi_lprot : lprot_ok sc E;
-  wi_visS : forall d, In d (w_funs W) -> In (fd_var d) (fnames fl) -> fvisS e d;
-  wi_visL : forall d, In d (w_funs W) -> In (fd_var d) (fnames fl) -> fvisL E d;
-  wi_vsc : forall d, In d (w_funs W) -> In (fd_var d) (fnames fl) -> incl (fd_sc d) sc /\ incl (fd_fl d) fl
+  wi_temps : forall t p, bound <= t -> sget (fmt_var t) E = Some p -> not_user p
 }.
 End World.
 
-Variable fl : list (N * nat).
-Variable W : world.
-
-Record rel (sc : list N) (e : senv) (st : sstate) (E : env) (stL : state) : Prop := mkRel {
-  r_vars : forall v, In v sc ->
-           exists c x p, SyltSem.lookup e v = Some c /\ nth_error (SyltSem.cells st) c = Some x /\
-                         sget (fmt_var v) E = Some p /\ vrel x (get_cell stL p);
-  r_scb : forall v, In v sc -> v < bound /\ v <> pv;
-  r_sinj : forall v1 v2 c, In v1 sc -> In v2 sc ->
-           SyltSem.lookup e v1 = Some c -> SyltSem.lookup e v2 = Some c -> v1 = v2;
-  r_print : exists c, SyltSem.lookup e pv = Some c /\ nth_error (SyltSem.cells st) c = Some (SyltSem.SExt "print") /\
-                      forall v, In v sc -> SyltSem.lookup e v <> Some c;
-  r_pvb : pv < bound;
-  r_pvE : sget (fmt_var pv) E = None;
-  r_pvG : glob stL (fmt_var pv) (VBuiltin BPrint);
-  r_wf : wfenv E stL;
-  r_trace : SyltSem.trace st = s_out stL;
-  r_linv : linv stL;
-  r_world : winv fl W sc e st E stL
+(* ---- the relation between a configuration of the reference interpreter and one of LuaCore, in a given world ---- *)
+Record rel0 (fl : list (N * kind)) (W : world) (sc : list N) (e : senv) (st : sstate) (E : env) (stL : state) : Prop := mkRel {
+  r0_scb : forall v, In v sc -> v < bound /\ v <> pv;
+  r0_flb : forall v, In v (fnames fl) -> v < bound /\ v <> pv;
+  r0_print : SyltSem.lookup e pv = Some (w_pc W);
+  r0_pvb : pv < bound;
+  r0_pvE : sget (fmt_var pv) E = None;
+  r0_pvG : glob stL (fmt_var pv) (VBuiltin BPrint);
+  r0_wf : wfenv E stL;
+  r0_trace : SyltSem.trace st = s_out stL;
+  r0_linv : linv stL;
+  r0_world : winv fl W sc e st E stL
 }.
+
+(* the function names in scope are bound to function cells of the world W itself: what the code at hand can name
+   is known in W; the rest of the invariant holds in a world that knows at least what W knows (the worlds grow
+   along a run: every definition of a user variable adds its two cells, every function definition its closure) *)
+Definition fscope (fl : list (N * kind)) (W : world) (e : senv) (E : env) : Prop :=
+  forall f K, In (f, K) fl ->
+    exists c p d, SyltSem.lookup e f = Some c /\ sget (fmt_var f) E = Some p /\ w_F W c p d /\ dkind d = K /\ w_D W d.
+
+Definition rel (fl : list (N * kind)) (W : world) (sc : list N) (e : senv) (st : sstate) (E : env) (stL : state) : Prop :=
+  fscope fl W e E /\ exists W', wsub W W' /\ rel0 fl W' sc e st E stL.
+
+Lemma rel_of0 fl W sc e st E stL : fscope fl W e E -> rel0 fl W sc e st E stL -> rel fl W sc e st E stL.
+Proof. intros Hf H. split; [exact Hf|]. exists W. split; [apply wsub_refl | exact H]. Qed.
+
+(* what the relation says, whatever the world it holds in *)
+Lemma r_vars fl W sc e st E stL : rel fl W sc e st E stL ->
+  forall v, In v sc -> exists c x p, SyltSem.lookup e v = Some c /\ nth_error (SyltSem.cells st) c = Some x /\
+                                       sget (fmt_var v) E = Some p /\ vrel x (get_cell stL p).
+Proof.
+  intros (_ & W' & _ & H) v Hv. destruct (wi_sc _ _ _ _ _ _ _ (r0_world _ _ _ _ _ _ _ H) v Hv) as (c & p & H1 & H2 & H3).
+  destruct (wi_R _ _ _ _ _ _ _ (r0_world _ _ _ _ _ _ _ H) c p H3) as (x & H4 & H5 & _). exists c, x, p. auto.
+Qed.
+Lemma r_scb fl W sc e st E stL : rel fl W sc e st E stL -> forall v, In v sc -> v < bound /\ v <> pv.
+Proof. intros (_ & W' & _ & H). apply (r0_scb _ _ _ _ _ _ _ H). Qed.
+Lemma r_flb fl W sc e st E stL : rel fl W sc e st E stL -> forall v, In v (fnames fl) -> v < bound /\ v <> pv.
+Proof. intros (_ & W' & _ & H). apply (r0_flb _ _ _ _ _ _ _ H). Qed.
+Lemma r_print fl W sc e st E stL : rel fl W sc e st E stL ->
+  exists c, SyltSem.lookup e pv = Some c /\ nth_error (SyltSem.cells st) c = Some (SyltSem.SExt "print").
+Proof.
+  intros (_ & W' & _ & H). exists (w_pc W'). split; [apply (r0_print _ _ _ _ _ _ _ H) | apply (wi_pc _ _ _ _ _ _ _ (r0_world _ _ _ _ _ _ _ H))].
+Qed.
+Lemma r_pvb fl W sc e st E stL : rel fl W sc e st E stL -> pv < bound.
+Proof. intros (_ & W' & _ & H). apply (r0_pvb _ _ _ _ _ _ _ H). Qed.
+Lemma r_pvE fl W sc e st E stL : rel fl W sc e st E stL -> sget (fmt_var pv) E = None.
+Proof. intros (_ & W' & _ & H). apply (r0_pvE _ _ _ _ _ _ _ H). Qed.
+Lemma r_pvG fl W sc e st E stL : rel fl W sc e st E stL -> glob stL (fmt_var pv) (VBuiltin BPrint).
+Proof. intros (_ & W' & _ & H). apply (r0_pvG _ _ _ _ _ _ _ H). Qed.
+Lemma r_wf fl W sc e st E stL : rel fl W sc e st E stL -> wfenv E stL.
+Proof. intros (_ & W' & _ & H). apply (r0_wf _ _ _ _ _ _ _ H). Qed.
+Lemma r_trace fl W sc e st E stL : rel fl W sc e st E stL -> SyltSem.trace st = s_out stL.
+Proof. intros (_ & W' & _ & H). apply (r0_trace _ _ _ _ _ _ _ H). Qed.
+Lemma r_linv fl W sc e st E stL : rel fl W sc e st E stL -> linv stL.
+Proof. intros (_ & W' & _ & H). apply (r0_linv _ _ _ _ _ _ _ H). Qed.
+Lemma r_scfl fl W sc e st E stL : rel fl W sc e st E stL -> forall v, In v sc -> ~ In v (fnames fl).
+Proof. intros (_ & W' & _ & H). apply (wi_scfl _ _ _ _ _ _ _ (r0_world _ _ _ _ _ _ _ H)). Qed.
+Lemma r_fun fl W sc e st E stL f ar : rel fl W sc e st E stL -> In (f, ar) fl ->
+  exists c ci p fid, SyltSem.lookup e f = Some c /\ nth_error (SyltSem.cells st) c = Some (SyltSem.SClos ci) /\
+                     sget (fmt_var f) E = Some p /\ get_cell stL p = VFun fid /\ fid = fid_of ci.
+Proof.
+  intros (Hfs & W' & (_ & HsF & _) & H) Hin. destruct (Hfs f ar Hin) as (c & p & d & H1 & H2 & H3 & _).
+  apply HsF in H3.
+  destruct (wi_F _ _ _ _ _ _ _ (r0_world _ _ _ _ _ _ _ H) c p d H3) as (H4 & H5 & _ & H6).
+  destruct (wi_D _ _ _ _ _ _ _ (r0_world _ _ _ _ _ _ _ H) d H6) as (_ & _ & _ & _ & H7 & _).
+  exists c, (fd_ci d), p, (fd_fid d). auto 10.
+Qed.
+Lemma r_fund fl W sc e st E stL f K : rel fl W sc e st E stL -> In (f, K) fl ->
+  exists c p d, SyltSem.lookup e f = Some c /\ nth_error (SyltSem.cells st) c = Some (SyltSem.SClos (fd_ci d)) /\
+                sget (fmt_var f) E = Some p /\ get_cell stL p = VFun (fd_fid d) /\ w_D W d /\ dkind d = K.
+Proof.
+  intros (Hfs & W' & (_ & HsF & _) & H) Hin. destruct (Hfs f K Hin) as (c & p & d & H1 & H2 & H3 & H4 & H5).
+  apply HsF in H3.
+  destruct (wi_F _ _ _ _ _ _ _ (r0_world _ _ _ _ _ _ _ H) c p d H3) as (H6 & H7 & _).
+  exists c, p, d. auto 10.
+Qed.
+(* a fixed cell keeps its content and is not the cell of a variable *)
+Lemma r_fixed fl W sc e st E stL p lv : rel fl W sc e st E stL -> w_P W p lv -> get_cell stL p = lv /\ (p < s_ncell stL)%positive.
+Proof. intros (_ & W' & (_ & _ & _ & HP & _) & H) Hp. apply (wi_P _ _ _ _ _ _ _ (r0_world _ _ _ _ _ _ _ H)). apply HP. exact Hp. Qed.
 
 (* ---- the world invariant under the changes of state and environment the simulation makes ---- *)
 
-Lemma winv_states_gen sc e st E stL st' stL' :
-  winv fl W sc e st E stL ->
-  (forall c x, w_IS W c x -> nth_error (SyltSem.cells st') c = nth_error (SyltSem.cells st) c) ->
-  (forall ci, (ci < length (SyltSem.clos st))%nat -> nth_error (SyltSem.clos st') ci = nth_error (SyltSem.clos st) ci) ->
-  (length (SyltSem.clos st) <= length (SyltSem.clos st'))%nat ->
-  (forall p lv, w_IL W p lv -> get_cell stL' p = get_cell stL p) ->
-  (s_ncell stL <= s_ncell stL')%positive ->
-  (forall fid, (fid < s_nclo stL)%positive -> pget fid (s_clos stL') = pget fid (s_clos stL)) ->
-  (s_nclo stL <= s_nclo stL')%positive ->
-  winv fl W sc e st' E stL'.
+Lemma vrel_not_ext s lv : ~ vrel (SyltSem.SExt s) lv.
+Proof. intros H. inversion H. Qed.
+Lemma vrel_not_clos ci lv : ~ vrel (SyltSem.SClos ci) lv.
+Proof. intros H. inversion H. Qed.
+
+(* the cell of print is not the cell of a user variable *)
+Lemma winv_pc_notR fl W sc e st E stL p : winv fl W sc e st E stL -> ~ w_R W (w_pc W) p.
 Proof.
-  intros [H1 H2 HCS HCL Hav H3 H4 H5 H6 H7 H8 H9 H10 H11 H12 H13] Hs Hc Hcl Hl Hn Hlc Hnc.
-  constructor; auto.
-  - intros c x Hx. rewrite (Hs c x Hx). apply H1. exact Hx.
-  - intros p lv Hp. destruct (H2 p lv Hp) as [Ha Hb]. split; [rewrite (Hl p lv Hp); exact Ha | lia].
-  - intros ci cl Hx. pose proof (HCS ci cl Hx) as Hn0. rewrite Hc; [exact Hn0 | apply nth_error_Some; congruence].
-  - intros fid c0 Hx. destruct (HCL fid c0 Hx) as [Ha Hb]. split; [rewrite (Hlc _ Hb); exact Ha | lia].
-  - intros d Hd. destruct (H3 d Hd) as (Ha & Hb & Hcc & Hf & Hci).
-    split; [rewrite (Hc _ Hci); exact Ha|]. split; [rewrite (Hlc _ Hf); exact Hb|].
-    split; [intros x p Hx; specialize (Hcc x p Hx); lia|]. split; lia.
+  intros Hw Hr. destruct (wi_R _ _ _ _ _ _ _ Hw _ _ Hr) as (x & Hx & Hv & _).
+  rewrite (wi_pc _ _ _ _ _ _ _ Hw) in Hx. inversion Hx; subst. exact (vrel_not_ext _ _ Hv).
 Qed.
 
-Lemma winv_states sc e st E stL st' stL' :
+Lemma winv_states fl W sc e st E stL st' stL' :
   winv fl W sc e st E stL ->
-  (forall c x, w_IS W c x -> nth_error (SyltSem.cells st') c = nth_error (SyltSem.cells st) c) ->
+  (forall c, (forall p, ~ w_R W c p) -> (c < length (SyltSem.cells st))%nat ->
+             nth_error (SyltSem.cells st') c = nth_error (SyltSem.cells st) c) ->
+  (forall c p, w_R W c p -> exists x, nth_error (SyltSem.cells st') c = Some x /\ vrel x (get_cell stL' p)) ->
   SyltSem.clos st' = SyltSem.clos st ->
-  (forall p lv, w_IL W p lv -> get_cell stL' p = get_cell stL p) ->
-  (s_ncell stL <= s_ncell stL')%positive -> s_clos stL' = s_clos stL -> s_nclo stL' = s_nclo stL ->
+  (forall c p d, w_F W c p d -> get_cell stL' p = get_cell stL p) ->
+  (forall p lv, w_P W p lv -> get_cell stL' p = get_cell stL p) ->
+  (s_ncell stL <= s_ncell stL')%positive ->
+  s_clos stL' = s_clos stL -> s_nclo stL' = s_nclo stL ->
   winv fl W sc e st' E stL'.
 Proof.
-  intros Hw Hs Hc Hl Hn Hlc Hnc. apply (winv_states_gen sc e st E stL st' stL' Hw Hs); auto.
-  - intros ci _. rewrite Hc. reflexivity.
-  - rewrite Hc. lia.
-  - intros fid _. rewrite Hlc. reflexivity.
-  - rewrite Hnc. lia.
+  intros Hw HS HR Hc HF HP Hn Hlc Hnc.
+  pose proof Hw as [H1 H2 H3 H4 H5 H6 H7 Hff H8 H9 H10 Hall Hlock H11 H13 H14].
+  assert (Hlen : forall c x, nth_error (SyltSem.cells st) c = Some x -> (c < length (SyltSem.cells st))%nat)
+    by (intros c x H; apply nth_error_Some; congruence).
+  constructor; auto.
+  - intros c p Hr. destruct (HR c p Hr) as (x & Hx & Hv). destruct (H1 c p Hr) as (_ & _ & _ & Hlt). exists x. split; [exact Hx | split; [exact Hv | lia]].
+  - intros c p d Hf. destruct (H6 c p d Hf) as (A & B & C & D). split; [|split; [rewrite (HF c p d Hf); exact B | split; [lia | exact D]]].
+    rewrite HS; [exact A | | eapply Hlen; exact A]. intros p' Hr. destruct (H4 c p' Hr) as [Hn1 _]. exact (Hn1 p d Hf).
+  - intros p lv Hp. destruct (H8 p lv Hp) as [A B]. split; [rewrite (HP p lv Hp); exact A | lia].
+  - rewrite HS; [exact H9 | intros p'; apply (winv_pc_notR _ _ _ _ _ _ _ p' Hw) | eapply Hlen; exact H9].
+  - intros d Hd. destruct (H10 d Hd) as (A & B & C & D & F & G & G').
+    split; [exact A|]. split; [rewrite Hc; exact B|].
+    split; [rewrite Hlc; exact C|]. split; [intros x p Hx; specialize (D x p Hx); lia|]. split; [exact F|].
+    split; [rewrite Hc; exact G | exact G'].
+  - rewrite Hc. exact Hall.
+  - rewrite Hc, Hnc. exact Hlock.
 Qed.
 
 (* the same states, another scope and environments *)
-Lemma winv_env sc e st E stL sc' e' E' :
+Lemma winv_env fl W sc e st E stL fl' sc' e' E' :
   winv fl W sc e st E stL ->
-  (forall v c x, In v sc' -> SyltSem.lookup e' v = Some c -> ~ w_IS W c x) ->
-  (forall v, In v sc' -> ~ In v (fnames fl)) ->
-  lprot_ok W sc' E' ->
-  (forall d, In d (w_funs W) -> In (fd_var d) (fnames fl) -> fvisS e' d) ->
-  (forall d, In d (w_funs W) -> In (fd_var d) (fnames fl) -> fvisL E' d) ->
-  (forall d, In d (w_funs W) -> In (fd_var d) (fnames fl) -> incl (fd_sc d) sc' /\ incl (fd_fl d) fl) ->
-  winv fl W sc' e' st E' stL.
-Proof. intros [H1 H2 HCS HCL Hav H3 H4 H5 H6 H7 H8 H9 H10 H11 H12 H13] A B C D F G. constructor; auto. Qed.
+  (forall v, In v sc' -> exists c p, SyltSem.lookup e' v = Some c /\ sget (fmt_var v) E' = Some p /\ w_R W c p) ->
+  (forall v, In v sc' -> ~ In v (fnames fl')) ->
+  (forall t p, bound <= t -> sget (fmt_var t) E' = Some p -> not_user W p) ->
+  winv fl' W sc' e' st E' stL.
+Proof. intros [H1 H2 H3 H4 H5 H6 H7 Hff H8 H9 H10 Hall Hlock H11 H13 H14] A C D. constructor; auto. Qed.
 
-(* every name a callable function's body can see, and the function names, are user variables *)
-Lemma winv_fvis_bound sc e st E stL d g :
-  winv fl W sc e st E stL -> In d (w_funs W) -> fvis d g \/ g = fd_var d -> g < bound /\ g <> pv.
-Proof.
-  intros Hw Hd Hg. destruct (wi_fun _ _ _ _ _ _ _ Hw d Hd) as (Hs & _ & _).
-  destruct Hg as [[Hg|Hg]|Hg]; [apply (fs_scb _ Hs); exact Hg | apply (fs_flb _ Hs); exact Hg | subst g; destruct (fs_var _ Hs) as (A & B & _); split; assumption].
-Qed.
-
-(* a Lua environment that differs from E only on temporaries and on one new user variable that no function sees *)
-Lemma fvisL_same E E' d :
-  fvisL E d -> sget (fmt_var (fd_var d)) E' = sget (fmt_var (fd_var d)) E ->
-  (forall g, fvis d g -> sget (fmt_var g) E' = sget (fmt_var g) E) -> fvisL E' d.
-Proof.
-  intros [Ha Hb] H1 H2. constructor; [rewrite H1; exact Ha|]. intros g Hg. rewrite (H2 g Hg). apply Hb. exact Hg.
-Qed.
-
-Lemma fvisS_same e e' d :
-  fvisS e d -> SyltSem.lookup e' (fd_var d) = SyltSem.lookup e (fd_var d) ->
-  (forall g, fvis d g \/ g = pv -> SyltSem.lookup e' g = SyltSem.lookup e g) -> fvisS e' d.
-Proof.
-  intros [Ha Hb] H1 H2. constructor; [rewrite H1; exact Ha|]. intros g Hg. rewrite (H2 g Hg). apply Hb. exact Hg.
-Qed.
-
-(* a new temporary local on the Lua side *)
-Lemma winv_local_temp sc e st E stL t v :
-  winv fl W sc e st E stL -> (forall w, In w sc -> w < bound /\ w <> pv) -> bound <= t ->
-  winv fl W sc e st (sset (fmt_var t) (s_ncell stL) E) (snd (alloc_cell stL v)).
-Proof.
-  intros Hw Hb Hbt.
-  assert (Hw1 : winv fl W sc e st E (snd (alloc_cell stL v))).
-  { apply (winv_states sc e st E stL st (snd (alloc_cell stL v)) Hw); auto.
-    - intros p lv Hp. apply get_cell_alloc_old. apply (wi_IL _ _ _ _ _ _ _ Hw p lv Hp).
-    - cbn; lia. }
-  apply (winv_env sc e st E (snd (alloc_cell stL v)) sc e _ Hw1).
-  - apply (wi_scS _ _ _ _ _ _ _ Hw).
-  - apply (wi_scfl _ _ _ _ _ _ _ Hw).
-  - intros w p lv Hin Hx. rewrite sget_sset_var in Hx by (destruct (Hb w Hin); lia).
-    eapply (wi_lprot _ _ _ _ _ _ _ Hw); eassumption.
-  - apply (wi_visS _ _ _ _ _ _ _ Hw).
-  - intros d Hd Hv. apply (fvisL_same E); [apply (wi_visL _ _ _ _ _ _ _ Hw d Hd Hv) | |].
-    + apply sget_sset_var. destruct (winv_fvis_bound _ _ _ _ _ d (fd_var d) Hw Hd (or_intror eq_refl)). lia.
-    + intros g Hg. apply sget_sset_var. destruct (winv_fvis_bound _ _ _ _ _ d g Hw Hd (or_introl Hg)). lia.
-  - apply (wi_vsc _ _ _ _ _ _ _ Hw).
-Qed.
+(* a world that knows more: what the invariant of the larger world says about the smaller one's scope *)
 
 (* garbage cells on the Lua side *)
-Lemma rel_cells_ext sc e st E stL stL' : rel sc e st E stL -> cells_ext stL stL' -> rel sc e st E stL'.
+Lemma rel_cells_ext fl W sc e st E stL stL' : rel fl W sc e st E stL -> cells_ext stL stL' -> rel fl W sc e st E stL'.
 Proof.
-  intros [Hv Hb Hi Hp Hpb HpE HpG Hwf Ht Hl HW] Hx. constructor.
-  - intros v Hin. destruct (Hv v Hin) as (c & x & p & H1 & H2 & H3 & H4).
-    exists c, x, p. repeat split; auto. destruct Hx as (_ & _ & _ & _ & _ & _ & _ & Hg).
-    rewrite Hg; [exact H4 | eapply wf_alloc; eassumption].
+  intros (Hfs & W' & Hs & [Hb Hfb Hp Hpb HpE HpG Hwf Ht Hl HW]) Hx. split; [exact Hfs|]. exists W'. split; [exact Hs|]. constructor.
   - exact Hb.
-  - exact Hi.
+  - exact Hfb.
   - exact Hp.
   - exact Hpb.
   - exact HpE.
@@ -466,22 +499,31 @@ Proof.
   - destruct Hx as (_ & _ & _ & _ & Ho & _). congruence.
   - eapply cells_ext_linv; eassumption.
   - destruct Hx as (_ & _ & Hc & Hnc & _ & _ & Hn & Hg).
-    apply (winv_states sc e st E stL st stL' HW); auto.
-    intros p lv Hp'. apply Hg. apply (wi_IL _ _ _ _ _ _ _ HW p lv Hp').
+    apply (winv_states fl W' sc e st E stL st stL' HW).
+    + intros; reflexivity.
+    + intros c p Hr. destruct (wi_R _ _ _ _ _ _ _ HW c p Hr) as (x & A & B & C). exists x. split; [exact A | rewrite Hg; assumption].
+    + intros; reflexivity.
+    + intros c p d Hf. apply Hg. apply (wi_F _ _ _ _ _ _ _ HW c p d Hf).
+    + intros p lv Hp'. apply Hg. apply (wi_P _ _ _ _ _ _ _ HW p lv Hp').
+    + exact Hn.
+    + exact Hc.
+    + exact Hnc.
 Qed.
 
 (* a new temporary local *)
-Lemma rel_local_temp sc e st E stL t v :
-  rel sc e st E stL -> bound <= t ->
-  rel sc e st (sset (fmt_var t) (s_ncell stL) E) (snd (alloc_cell stL v)).
+Lemma rel_local_temp fl W sc e st E stL t v :
+  rel fl W sc e st E stL -> bound <= t ->
+  rel fl W sc e st (sset (fmt_var t) (s_ncell stL) E) (snd (alloc_cell stL v)).
 Proof.
-  intros [Hv Hb Hi Hp Hpb HpE HpG Hwf Ht Hl HW] Hbt. constructor.
-  - intros w Hin. destruct (Hv w Hin) as (c & x & p & H1 & H2 & H3 & H4).
-    exists c, x, p. repeat split; auto.
-    + rewrite sget_sset_var; [exact H3 | destruct (Hb w Hin); lia].
-    + rewrite get_cell_alloc_old; [exact H4 | eapply wf_alloc; eassumption].
+  intros (Hfs & W' & Hs & [Hb Hfb Hp Hpb HpE HpG Hwf Ht Hl HW]) Hbt.
+  assert (Hfl : forall f ar, In (f, ar) fl -> f < bound).
+  { intros f ar Hin. destruct (Hfb f); [|assumption]. unfold fnames. change f with (fst (f, ar)). apply in_map. exact Hin. }
+  split.
+  { intros f ar Hin. destruct (Hfs f ar Hin) as (c & p & d & A & B & C). exists c, p, d. split; [exact A | split; [|exact C]].
+    rewrite sget_sset_var; [exact B | pose proof (Hfl f ar Hin); lia]. }
+  exists W'. split; [exact Hs|]. constructor.
   - exact Hb.
-  - exact Hi.
+  - exact Hfb.
   - exact Hp.
   - exact Hpb.
   - rewrite sget_sset_var; [exact HpE | lia].
@@ -489,22 +531,35 @@ Proof.
   - apply wfenv_local. exact Hwf.
   - exact Ht.
   - apply linv_alloc_cell. exact Hl.
-  - apply winv_local_temp; assumption.
+  - assert (Hw1 : winv fl W' sc e st E (snd (alloc_cell stL v))).
+    { apply (winv_states fl W' sc e st E stL st (snd (alloc_cell stL v)) HW).
+      - intros; reflexivity.
+      - intros c p Hr. destruct (wi_R _ _ _ _ _ _ _ HW c p Hr) as (x & A & B & C). exists x. split; [exact A | rewrite get_cell_alloc_old; assumption].
+      - intros; reflexivity.
+      - intros c p d Hf. apply get_cell_alloc_old. apply (wi_F _ _ _ _ _ _ _ HW c p d Hf).
+      - intros p lv Hp'. apply get_cell_alloc_old. apply (wi_P _ _ _ _ _ _ _ HW p lv Hp').
+      - cbn; lia.
+      - reflexivity.
+      - reflexivity. }
+    apply (winv_env fl W' sc e st E _ fl sc e _ Hw1).
+    + intros w Hin. destruct (wi_sc _ _ _ _ _ _ _ HW w Hin) as (c & p & A & B & C). exists c, p.
+      split; [exact A | split; [|exact C]]. rewrite sget_sset_var; [exact B | destruct (Hb w Hin); lia].
+    + apply (wi_scfl _ _ _ _ _ _ _ HW).
+    + intros t' p Hbt' Hq. destruct (N.eq_dec t' t) as [->|Hne].
+      * rewrite sget_sset_same in Hq. inversion Hq; subst p. split.
+        -- intros c Hr. destruct (wi_R _ _ _ _ _ _ _ HW c _ Hr) as (_ & _ & _ & Hlt). lia.
+        -- intros c d Hf. destruct (wi_F _ _ _ _ _ _ _ HW c _ d Hf) as (_ & _ & Hlt & _). lia.
+      * rewrite sget_sset_var in Hq by exact Hne. apply (wi_temps _ _ _ _ _ _ _ HW t' p Hbt' Hq).
 Qed.
 
 (* writing the cell of a temporary *)
-Lemma rel_set_temp sc e st E stL t p v :
-  rel sc e st E stL -> bound <= t -> sget (fmt_var t) E = Some p -> (forall lv, ~ w_IL W p lv) ->
-  rel sc e st E (set_cell stL p v).
+Lemma rel_set_temp fl W sc e st E stL t p v :
+  rel fl W sc e st E stL -> bound <= t -> sget (fmt_var t) E = Some p -> (forall lv, ~ w_P W p lv) ->
+  rel fl W sc e st E (set_cell stL p v).
 Proof.
-  intros [Hv Hb Hi Hp Hpb HpE HpG Hwf Ht Hl HW] Hbt Htp Hnp. constructor.
-  - intros w Hin. destruct (Hv w Hin) as (c & x & q & H1 & H2 & H3 & H4).
-    exists c, x, q. repeat split; auto.
-    rewrite get_cell_set_other; [exact H4|].
-    intros ->. assert (fmt_var w = fmt_var t) by (eapply wf_inj; eassumption).
-    apply fmt_var_inj in H. destruct (Hb w Hin). lia.
+  intros (Hfs & W' & Hs & [Hb Hfb Hp Hpb HpE HpG Hwf Ht Hl HW]) Hbt Htp Hnp. split; [exact Hfs|]. exists W'. split; [exact Hs|]. constructor.
   - exact Hb.
-  - exact Hi.
+  - exact Hfb.
   - exact Hp.
   - exact Hpb.
   - exact HpE.
@@ -512,8 +567,17 @@ Proof.
   - eapply wfenv_ext; [exact Hwf | cbn; lia].
   - exact Ht.
   - apply linv_set_cell. exact Hl.
-  - apply (winv_states sc e st E stL st (set_cell stL p v) HW); auto; [|cbn; lia].
-    intros q lv Hq. apply get_cell_set_other. intros ->. exact (Hnp lv Hq).
+  - destruct (wi_temps _ _ _ _ _ _ _ HW t p Hbt Htp) as [HnR HnF].
+    apply (winv_states fl W' sc e st E stL st (set_cell stL p v) HW).
+    + intros; reflexivity.
+    + intros c q Hr. destruct (wi_R _ _ _ _ _ _ _ HW c q Hr) as (x & A & B & C). exists x. split; [exact A|].
+      rewrite get_cell_set_other; [exact B | intros ->; exact (HnR c Hr)].
+    + intros; reflexivity.
+    + intros c q d Hf. apply get_cell_set_other. intros ->. exact (HnF c d Hf).
+    + intros q lv Hq. apply get_cell_set_other. intros ->. destruct Hs as (_ & _ & _ & HP & _). apply (Hnp lv). apply HP. exact Hq.
+    + cbn; lia.
+    + reflexivity.
+    + reflexivity.
 Qed.
 
 End Rel.
